@@ -5,7 +5,8 @@
   ResKnown.lean, ResMono.lean, ResUri.lean; for the designation theorems (the
   declarative side is JSV/Spec/Designate.lean) ResTree.lean, ResDesig.lean, ResDesigRefs.lean; for the
   converse (a reference that designates nothing is an error, and nothing else is: hypotheses in
-  JSV/Spec/WellFormed.lean) ResComplete.lean, ResCompleteUris.lean, ResCompleteRefs.lean, ResCompleteWF.lean.
+  JSV/Spec/WellFormed.lean) ResComplete.lean, ResCompleteUris.lean, ResCompleteRefs.lean, ResCompleteMulti.lean
+  (with a Loader), ResCompleteWF.lean (checkers, certificates).
 -/
 import JSV.Proofs.ResInv
 import JSV.Proofs.ResRefs
@@ -15,6 +16,7 @@ import JSV.Proofs.ResUri
 import JSV.Proofs.ResDesigRefs
 import JSV.Proofs.ResDesigMulti
 import JSV.Proofs.ResCompleteRefs
+import JSV.Proofs.ResCompleteMulti
 import JSV.Proofs.ResCompleteWF
 namespace JSV.C03
 open JSV Go Go.RInv
@@ -714,6 +716,22 @@ theorem resolve_err_iff_selfcontained (env : Env) (hl : env.loader = none) (fuel
   | panic => exact absurd hr (resolve_ne_panic_noloader env hl fuel root base)
   | fuel => exact absurd hr (RTot.resolve_ne_fuel env fuel root base (by rw [hl]; simpa using hfuel))
 
+/-- COMPLETENESS with a Loader whose documents are all present (`UniverseOk`, JSV/Spec/WellFormed.lean):
+    * every document — the top one under the retrieval URI `b`, every Loader document under every URL whose string
+      is its key in the table — is well-formed (W2–W6), and all documents are read under one draft `dr`;
+    * every reference of every document is good (`Doc.RefGood`): its fragment-less URI identifies a resource of
+      its own document in which the fragment selects something, or it identifies nothing there and is a name of the
+      top document or a key of the Loader table (with a `.doc` entry) in whose document the fragment selects something;
+    * no URI names two documents (`Coherent`: retrieval URIs and root `$id`s — what resolver.loaded is keyed by);
+    * the Loader's documents share no schema object (`LoaderFresh`, and its decidable form `docsDisjoint` which
+      excludes the model's panic).
+    Then Schema.Resolve succeeds, for every fuel above the number of Loader entries. -/
+theorem resolve_complete (env : Env) (root : NodeId) (dr : Draft) (base : String) (b : Uri.Url) (fuel : Nat)
+    (hfuel : (env.loader.getD []).length + 1 ≤ fuel) (W1 : retrievalOf base = .ok b)
+    (hfresh : LoaderFresh env root) (hdis : RTot.docsDisjoint env root = true)
+    (U : UniverseOk env root dr b) : ∃ rs, Go.resolve env fuel root base = .ok rs :=
+  resolve_ok_of_universe env root dr b base fuel hfuel W1 hfresh hdis U
+
 end completeness
 
 /-! ### The completeness theorems on non-trivial data
@@ -847,6 +865,130 @@ example : ¬ (topDoc dupEnv 0).UniqueIds {} := by
   have h2 : (topDoc dupEnv 0).Identifies {} "http://a/x.json" 2 :=
     Or.inr ⟨⟨[2], by decide +kernel, by decide +kernel⟩, _, ⟨[2], by decide +kernel, rfl⟩, by decide +kernel⟩
   exact absurd (h _ _ _ h1 h2) (by decide)
+
+/-! With a Loader: the universe `exEnv` (root document 0 with two references into `http://a/other.json`, served by
+    the Loader as document 3) satisfies `UniverseOk`; the references leave the root document (`checkRefOut`: their
+    URI is no key of the document and is a key of the table) and the fragment selects in the Loader's document. -/
+
+theorem ex_tbl (tbl : List (String × LoaderResult)) (h : exEnv.loader = some tbl) :
+    tbl = [("http://a/other.json", .doc 3)] := by
+  have : exEnv.loader = some [("http://a/other.json", .doc 3)] := rfl
+  rw [this] at h
+  simp only [Option.some.injEq] at h
+  exact h.symm
+
+theorem ex_key (k : String) (r : NodeId)
+    (h : Json.lookup k [("http://a/other.json", LoaderResult.doc 3)] = some (.doc r)) :
+    k = "http://a/other.json" ∧ r = 3 := by
+  rw [Json.lookup_cons] at h
+  split at h
+  · rename_i hk
+    simp only [Option.some.injEq, LoaderResult.doc.injEq] at h
+    exact ⟨hk.symm, h.symm⟩
+  · simp at h
+
+/-- the Loader document (schemas 3, 4) carries no `$id` -/
+theorem ex_noIds (dr : Draft) : NoIds ⟨exStore, dr, 3⟩ := by
+  intro x n hx hn
+  have hmem := reach_sub_closed exStore [3, 4] 3 x (by simp) (by decide +kernel) hx
+  simp only [List.mem_cons, List.mem_nil_iff, or_false] at hmem
+  have hn' : exStore.get? x = some n := hn
+  rcases hmem with rfl | rfl
+  · have : exStore.get? 3 = some { defs := some [("x", 4)] } := rfl
+    rw [this] at hn'
+    rw [← Option.some.inj hn']
+  · have : exStore.get? 4 = some { type := "string" } := rfl
+    rw [this] at hn'
+    rw [← Option.some.inj hn']
+
+theorem ex_universe : UniverseOk exEnv 0 .d2020 {} where
+  topDr := by decide +kernel
+  loaderDraft := by
+    intro tbl k r rn htbl hk hrn
+    rw [ex_tbl tbl htbl] at hk
+    obtain ⟨_, rfl⟩ := ex_key k r hk
+    have : exEnv.st.get? 3 = some { defs := some [("x", 4)] } := rfl
+    rw [this] at hrn
+    rw [← Option.some.inj hrn]
+    rfl
+  topDoc :=
+    { frag := rfl
+      struct := by decide +kernel
+      locals := by decide +kernel
+      ids := idsOk_sound _ _ (by decide +kernel)
+      uniq := uniqueIds_sound _ _ (by decide +kernel)
+      refs := by
+        have hall : allNodes exStore (exStore.size + 2) [0] = [0, 1, 2] := by decide +kernel
+        intro id hid n hn
+        have hid' : id ∈ [0, 1, 2] := by rw [← hall]; exact hid
+        have hn' : exStore.get? id = some n := hn
+        simp only [List.mem_cons, List.mem_nil_iff, or_false] at hid'
+        rcases hid' with rfl | rfl | rfl
+        · have : exStore.get? 0 = some { id := "http://a/root.json", allOf := some [1, 2] } := rfl
+          rw [this] at hn'
+          rw [← Option.some.inj hn']
+          exact ⟨fun h => absurd rfl h, fun h => absurd rfl h⟩
+        · have : exStore.get? 1 = some { ref := "other.json#/$defs/x" } := rfl
+          rw [this] at hn'
+          rw [← Option.some.inj hn']
+          exact ⟨fun _ => checkRefOut_sound exEnv 0 {} _ {} 1 _ [1] 3 [] 4 (by decide +kernel), fun h => absurd rfl h⟩
+        · have : exStore.get? 2 = some { ref := "other.json" } := rfl
+          rw [this] at hn'
+          rw [← Option.some.inj hn']
+          exact ⟨fun _ => checkRefOut_sound exEnv 0 {} _ {} 2 _ [2] 3 [] 3 (by decide +kernel), fun h => absurd rfl h⟩ }
+  docs := by
+    intro tbl u r htbl hk hfr
+    rw [ex_tbl tbl htbl] at hk
+    obtain ⟨_, rfl⟩ := ex_key _ r hk
+    exact
+      { frag := hfr
+        struct := by decide +kernel
+        locals := by decide +kernel
+        ids := noIds_idsOk _ (ex_noIds _) u
+        uniq := noIds_uniqueIds _ (ex_noIds _) u
+        refs := by
+          have hall : allNodes exStore (exStore.size + 2) [3] = [3, 4] := by decide +kernel
+          intro id hid n hn
+          have hid' : id ∈ [3, 4] := by rw [← hall]; exact hid
+          have hn' : exStore.get? id = some n := hn
+          simp only [List.mem_cons, List.mem_nil_iff, or_false] at hid'
+          rcases hid' with rfl | rfl
+          · have : exStore.get? 3 = some { defs := some [("x", 4)] } := rfl
+            rw [this] at hn'
+            rw [← Option.some.inj hn']
+            exact ⟨fun h => absurd rfl h, fun h => absurd rfl h⟩
+          · have : exStore.get? 4 = some { type := "string" } := rfl
+            rw [this] at hn'
+            rw [← Option.some.inj hn']
+            exact ⟨fun h => absurd rfl h, fun h => absurd rfl h⟩ }
+  coherent := by
+    have htop : ∀ key, (⟨exEnv.st, .d2020, 0⟩ : Doc).Identifies {} key 0 → key = "" ∨ key = "http://a/root.json" := by
+      intro key h
+      have hm := identifies_mem ⟨exEnv.st, .d2020, 0⟩ {} (by decide +kernel) key 0 h
+      have hk : (⟨exEnv.st, .d2020, 0⟩ : Doc).identKeys {} = [("", 0), ("http://a/root.json", 0)] := by decide +kernel
+      rw [hk] at hm
+      simp only [List.mem_cons, Prod.mk.injEq, List.mem_nil_iff, or_false] at hm
+      rcases hm with ⟨h, _⟩ | ⟨h, _⟩
+      · exact Or.inl h
+      · exact Or.inr h
+    have hdoc : ∀ key x, (∃ tbl u, exEnv.loader = some tbl ∧ Json.lookup (Uri.toString u) tbl = some (.doc x) ∧
+        (⟨exEnv.st, .d2020, x⟩ : Doc).Identifies u key x) → x = 3 ∧ key = "http://a/other.json" := by
+      rintro key x ⟨tbl, u, htbl, hk, hI⟩
+      rw [ex_tbl tbl htbl] at hk
+      obtain ⟨hu, rfl⟩ := ex_key _ x hk
+      exact ⟨rfl, by rw [(noIds_identifies _ (ex_noIds _) u key 3 hI).2, hu]⟩
+    intro key x y hx hy
+    rcases hx with ⟨rfl, hx⟩ | hx <;> rcases hy with ⟨rfl, hy⟩ | hy
+    · rfl
+    · obtain ⟨_, hk⟩ := hdoc key y hy
+      rcases htop key hx with h | h <;> rw [h] at hk <;> exact absurd hk (by decide)
+    · obtain ⟨_, hk⟩ := hdoc key x hx
+      rcases htop key hy with h | h <;> rw [h] at hk <;> exact absurd hk (by decide)
+    · rw [(hdoc key x hx).1, (hdoc key y hy).1]
+
+/-- so `resolve_complete` applies: success, by every fuel ≥ 2 -/
+example : ∃ rs, Go.resolve exEnv 2 0 "" = .ok rs :=
+  resolve_complete exEnv 0 .d2020 "" {} 2 (by decide) rfl exEnv_fresh (by decide +kernel) ex_universe
 
 end completeness_examples
 
